@@ -100,6 +100,11 @@ def handle (args : List String) : Option String :=
           | .header e => "Header:" ++ errName e | .format => "Format" | .capacity => "Capacity"
           | .evlrPosition => "EvlrPosition" | .vlr => "Vlr" | .rewrite e => "Rewrite:" ++ errName e
           | .pointFormat => "PointFormat")
+  | ["readpts", hex] => do
+      -- only what C19 constrains: the verdict and the returned point bytes
+      match readFile (toBytes (← parseHex hex)) with
+      | .ok r => return s!"ok {r.records.length} {toHex (ofBytes r.records.flatten)}"
+      | .error e => return "err " ++ rerr e
   | ["read", hex] => do
       match readFile (toBytes (← parseHex hex)) with
       | .ok r =>
